@@ -171,7 +171,7 @@ func genLoop(blocked bool) *rapid.Generator[Loop] {
 			l.ArgWork = append(l.ArgWork, rapid.IntRange(0, 3).Draw(t, "argwork"))
 		}
 		if blocked {
-			l.Blocked = rapid.SampledFrom([]string{"handler-bind", "ignore-errors", "load-string", "and"}).Draw(t, "blocked")
+			l.Blocked = rapid.SampledFrom([]string{"handler-bind", "ignore-errors", "load-string", "macro-expansion", "and"}).Draw(t, "blocked")
 			l.BlockAt = rapid.IntRange(0, l.NFun-1).Draw(t, "blockat")
 		}
 		return l
@@ -244,7 +244,12 @@ func (l Loop) source(n int) string {
 		case "thread-last":
 			call = fmt.Sprintf("(thread-last %s (%s %s))", B, next, A)
 		}
-		if l.Blocked == "load-string" && l.BlockAt == i {
+		if l.Blocked == "macro-expansion" && l.BlockAt == i {
+			// the next function is called DURING the expansion of a macro
+			// whose call sits in tail position
+			fmt.Fprintf(&b, "(defmacro via%d () (%s gn gacc))\n", i, next)
+			call = fmt.Sprintf("(progn (set 'gn %s) (set 'gacc %s) (via%d))", A, B, i)
+		} else if l.Blocked == "load-string" && l.BlockAt == i {
 			call = fmt.Sprintf("(progn (set 'gn %s) (set 'gacc %s) (load-string \"(%s gn gacc)\"))", A, B, next)
 		} else if l.Blocked != "" && l.BlockAt == i {
 			call = wrap(l.Blocked, call)
@@ -319,7 +324,7 @@ func checkLoop(l Loop, c *vcommon.Ctx) *vcommon.Failure {
 		if r2.maxH != r1.maxH {
 			return vcommon.Failf("stack/grows", "tail loop stack height grows with the iteration count: max %d frames at n=%d, %d at n=%d\n%s", r1.maxH, n1, r2.maxH, n2, s2)
 		}
-	case "handler-bind", "ignore-errors", "load-string":
+	case "handler-bind", "ignore-errors", "load-string", "macro-expansion":
 		// (c) never collapsed: at least one frame per extra turn of the cycle
 		turns := (n2 - n1) / l.NFun
 		if r2.maxH-r1.maxH < turns {
